@@ -29,6 +29,10 @@ type Variant struct {
 		Old  string `json:"old"`
 		New  string `json:"new"`
 	} `json:"more,omitempty"`
+	// alternatively: a unified diff (path relative to the verif root), applied
+	// forwards (a seeded change) or in reverse (a `fix:` commit undone)
+	Patch   string `json:"patch,omitempty"`
+	Reverse bool   `json:"reverse,omitempty"`
 }
 
 type variantResult struct {
@@ -61,6 +65,17 @@ func loadVariants(verif, id string) ([]Variant, error) {
 }
 
 func (v *Variant) overlay(repo string) (map[string][]byte, string) {
+	if v.Patch != "" {
+		b, err := os.ReadFile(filepath.Join(envOr("KVET_VERIF", "/verif"), v.Patch))
+		if err != nil {
+			return nil, "patch file missing: " + v.Patch
+		}
+		ov, err := applyUnifiedDiff(repo, string(b), v.Reverse)
+		if err != nil {
+			return nil, err.Error()
+		}
+		return ov, ""
+	}
 	ov := map[string][]byte{}
 	apply := func(file, old, new string) string {
 		p := filepath.Join(repo, file)
